@@ -182,6 +182,20 @@ CLAIMED["C05"] = (
     "DESIGN.md §5 C05",
 )
 
+CLAIMED["C18"] = (
+    "Kernel-checked theorems: a text property accepts exactly strings of at most 255 characters and returns them unchanged; "
+    "every valid instant of years 1..9999 is written in a form the reader parses back to the same instant (character-level "
+    "proof over the four-digit-year writer and the canonical W3CDTF reader); offset handling and revision reading are checked "
+    "on kernel-evaluated instances at the range extremes (the general offset law is partial: the civil-date inverse is not "
+    "proved).  Tied to the code by exact comparison of written timestamp text, read results for every W3CDTF granularity "
+    "and offsets -14:00..+14:00 (also against datetime arithmetic), the 255 rule, revision domain, assignment orders, 1..2 "
+    "save/re-open cycles, default part on first access, and a transcribed-schema validity check of docProps/core.xml.",
+    "Trusted: Hinnant civil-date conversion (modelled, corresponded, inverse law unproved); schema transcription (the "
+    "shipped XSD imports Dublin Core by URL); naive datetimes only.",
+    "Lean 4 proof (character-level write/read round trip) + kernel-evaluated offset instances + seeded correspondence",
+    "DESIGN.md §5 C18",
+)
+
 NOT_YET = {}
 
 
